@@ -209,6 +209,8 @@ def run(tier):
         raise MachineryError(f"vacuity: synth outcomes {souts}")
     # ---- configuration gate -----------------------------------------------------------------------------------
     cjobs = [(e, n, name) for e in workers.ENTRY_POINTS for n in range(1, 9) for name in NAMES if not ("[subset]" in e and n > 6)]
+    # the entry points that take a state: with an entangled state (GHZ) as well as with the computational basis state
+    cjobs += [(e, n, name, "ghz") for e in workers.ENTRY_POINTS[:3] + ["full_state_tomography_circuits", "stabilizer_measurement_circuit"] for n in range(2, 9) for name in NAMES]
     crecs = par.pmap(workers.config_gate, cjobs)
     L = impl.lib()
     av = L.connectivity_support.get_available_connectivities()
@@ -216,11 +218,11 @@ def run(tier):
     v, st = core.validate_traces("TraceCalls", crecs, files=files, what="C08 config records")
     ck.add_stats("TraceCalls(config)", st)
     for r, (cl, _) in zip(crecs, v):
-        ck.count(("config", r.get("entry", "available"), r.get("n", 0), r.get("name", "")), True)
+        ck.count(("config", r.get("entry", "available"), r.get("n", 0), r.get("name", ""), r.get("state", "")), True)
         bad = cl & CLAUSES
         if bad:
             if r["op"] == "config":
-                ck.violation(f"config {r['entry']} {r['n']} {r['name']}", f"{r['entry']}(n={r['n']}, connectivity={r['name']!r}) -> {r['outcome']} {r['exc']}: fails {sorted(bad)}", {"cjob": [r["entry"], r["n"], r["name"]], "clauses": sorted(bad)})
+                ck.violation(f"config {r['entry']} {r['n']} {r['name']}", f"{r['entry']}(n={r['n']}, connectivity={r['name']!r}, state {r.get('state', 'zero')}) -> {r['outcome']} {r['exc']}: fails {sorted(bad)}", {"cjob": [r["entry"], r["n"], r["name"], r.get("state", "zero")], "clauses": sorted(bad)})
             else:
                 ck.violation("available", f"get_available_connectivities() = {r['list']} is not the documented set", {"available": r["list"]})
         else:
@@ -245,8 +247,8 @@ def replay(path):
     elif "sjob" in p:
         r = workers.synth_flags(tuple(p["sjob"]))
     elif "cjob" in p:
-        e, n, name = p["cjob"]
-        r = workers.config_gate((e, n, None if name == "<None>" else name))
+        e, n, name = p["cjob"][:3]
+        r = workers.config_gate((e, n, None if name == "<None>" else name) + tuple(p["cjob"][3:]))
     else:
         return 1
     v, _ = core.validate_traces("TraceCalls", [r], files=files, jvms=1)
